@@ -522,4 +522,184 @@ theorem lr_total_imperiali (ae : Bool) (pol : OnOver) (votes : Votes) (n : Nat) 
   lr_total_exact ⟨Gen.Quota.imperiali, ae, pol, true⟩ 2
     (by intro V m; show Gen.Quota.imperiali V m = _; rw [quota_textbook_imperiali]; simp) votes n hwf hV hn hnb hle res hres
 
+/-! ## 5. caps (`max_seats`)
+
+  Full statements, NOT provable for the code as it stands (open findings C02-a, C02-b, C02-d):
+
+    theorem qd_cap  : WF votes prev → 0 < q → quotaDistribute cfg votes n prev maxS = .ok res →
+                        CapsRespected q ae prev maxS votes res
+    theorem lr_cap  : WF votes prev → 0 < q → largestRemainder cfg votes n prev maxS = .ok res →
+                        CapsRespected q ae prev maxS votes res
+    theorem lr_cap_total : … → sumK res + sumI prev = n        (when the caps leave room)
+    theorem qd_policy_honoured : the three policy theorems of section 2 without the `n_seats` part of `NoCapBinds`
+
+  Proved here: the `_partial` versions (no cap binds on the whole quotas), and `_witness` theorems showing the
+  model — which mirrors the code — violating each full statement on a concrete input.
+-/
+
+/-- a capped party never exceeds its cap, and sits exactly at the cap when its whole quotas reach it
+    (a party whose previous gains already exceed the cap is outside the statement) -/
+def capOK (q : Rat) (ae : Bool) (prev maxS : IMap) (res : Sel) (p : Cand × Rat) : Prop :=
+  match getCap maxS p.1 with
+  | some m => getI prev p.1 0 ≤ m →
+      getK res (.cand p.1) 0 + getI prev p.1 0 ≤ m ∧
+      (m ≤ wholeQ q ae p.2 → getK res (.cand p.1) 0 + getI prev p.1 0 = m)
+  | none => True
+
+instance (q : Rat) (ae : Bool) (prev maxS : IMap) (res : Sel) (p : Cand × Rat) :
+    Decidable (capOK q ae prev maxS res p) := by
+  unfold capOK
+  split <;> infer_instance
+
+def CapsRespected (q : Rat) (ae : Bool) (prev maxS : IMap) (votes : Votes) (res : Sel) : Prop :=
+  ∀ p ∈ votes, capOK q ae prev maxS res p
+
+instance (q : Rat) (ae : Bool) (prev maxS : IMap) (votes : Votes) (res : Sel) :
+    Decidable (CapsRespected q ae prev maxS votes res) := by
+  unfold CapsRespected; infer_instance
+
+private theorem getI_of_getCap {m : IMap} {c : Cand} {x : Int} (h : getCap m c = some x) (d : Int) :
+    getI m c d = x := by
+  unfold getCap at h
+  unfold getI
+  cases hf : m.find? (fun p => p.1 = c) with
+  | none => rw [hf] at h; cases h
+  | some y => rw [hf] at h; injection h
+
+/-- **Caps, partial (QuotaDistributor).**  When no cap binds on the whole quotas and the whole quotas are returned
+    (no over-award, or policy `'ignore'`), every cap is respected and a party whose whole quotas reach its cap
+    sits exactly on it. -/
+theorem qd_cap_partial (cfg : Cfg) (votes : Votes) (n : Nat) (prev maxS : IMap) (hwf : WF votes prev)
+    (hq : 0 < cfg.quota (sumVals votes) n)
+    (hnb : NoCapBinds (cfg.quota (sumVals votes) n) cfg.acceptEqual n prev maxS votes)
+    (hpol : totalAwarded (cfg.quota (sumVals votes) n) cfg.acceptEqual prev votes ≤ n ∨ cfg.onOver = .ignore)
+    (res : Sel) (hres : quotaDistribute cfg votes n prev maxS = .ok res) :
+    CapsRespected (cfg.quota (sumVals votes) n) cfg.acceptEqual prev maxS votes res := by
+  have hr : res = wholeSel (cfg.quota (sumVals votes) n) cfg.acceptEqual prev votes := by
+    rcases hpol with h | h
+    · rw [qd_no_overaward cfg votes n prev maxS hwf hq hnb h] at hres; injection hres with e; exact e.symm
+    · rw [qd_policy_ignore cfg votes n prev maxS hwf hq hnb h] at hres; injection hres with e; exact e.symm
+  subst hr
+  intro p hp
+  unfold capOK
+  split
+  · rename_i m hm
+    intro hpm
+    rw [getK_wholeSel _ _ _ _ hwf.keys_nodup p hp]
+    unfold wholeAward
+    have hb := hnb p hp
+    rw [getI_of_getCap hm] at hb
+    constructor
+    · rcases hb with h | h <;> omega
+    · intro hge; rcases hb with h | h <;> omega
+  · trivial
+
+/-- **Caps, partial (LargestRemainder).**  When the whole-quota stage is plain and no explicit cap binds on the
+    whole quotas, the remainder stage respects every cap: a party on its cap takes no remainder seat. -/
+theorem lr_cap_partial (cfg : Cfg) (votes : Votes) (n : Nat) (prev maxS : IMap) (h : Plain cfg votes n prev)
+    (hcap : ∀ p ∈ votes, ∀ m, getCap maxS p.1 = some m →
+      wholeQ (cfg.quota (sumVals votes) n) cfg.acceptEqual p.2 ≤ m)
+    (res : Sel) (hres : largestRemainder cfg votes n prev maxS = .ok res) :
+    CapsRespected (cfg.quota (sumVals votes) n) cfg.acceptEqual prev maxS votes res := by
+  intro p hp
+  unfold capOK
+  split
+  · rename_i m hm
+    intro hpm
+    have hseats := lr_floor_plus_01 cfg votes n prev maxS h res hres p hp
+    have hw := hcap p hp m hm
+    have hg : gainedQ (cfg.quota (sumVals votes) n) cfg.acceptEqual prev p ≤ m := by
+      unfold gainedQ wholeAward; omega
+    by_cases hel : Slot.cand p.1 ∈ lrBest (cfg.quota (sumVals votes) n) cfg.acceptEqual n prev maxS votes
+    · obtain ⟨p', hp', he, helig⟩ := lr_extra_only_eligible cfg votes n prev maxS p.1 hel
+      have hpp : p' = p := List.inj_on_of_nodup_map h.wf.keys_nodup hp' hp he
+      subst hpp
+      unfold eligible at helig
+      rw [hm] at helig
+      simp only [decide_eq_true_eq] at helig
+      rw [if_pos hel] at hseats
+      unfold gainedQ wholeAward at helig hg
+      unfold wholeAward at hseats
+      constructor
+      · omega
+      · intro hge; omega
+    · rw [if_neg hel] at hseats
+      unfold gainedQ wholeAward at hg
+      unfold wholeAward at hseats
+      constructor
+      · omega
+      · intro hge; omega
+  · trivial
+
+/-- **Witness (finding C02-a).**  `QuotaDistributor('hare').evaluate({A:60,B:30,C:10}, 10, max_seats={A:4})`:
+    the model, like the code, returns `A:0` — the capped party loses its whole entitlement. -/
+theorem qd_cap_witness :
+    ∃ res, quotaDistribute ⟨Gen.Quota.hare, true, .error, true⟩ [(0, 60), (1, 30), (2, 10)] 10 [] [(0, 4)] = .ok res ∧
+      res = [(.cand 0, 0), (.cand 1, 4), (.cand 2, 1)] ∧
+      ¬ CapsRespected (Gen.Quota.hare 100 10) true [] [(0, 4)] [(0, 60), (1, 30), (2, 10)] res :=
+  ⟨_, by decide +kernel, rfl, by decide +kernel⟩
+
+/-- … and with `prev_gains={A:1}` the award is negative. -/
+theorem qd_cap_negative_witness :
+    quotaDistribute ⟨Gen.Quota.hare, true, .error, true⟩ [(0, 60), (1, 30), (2, 10)] 10 [(0, 1)] [(0, 4)] =
+      .ok [(.cand 0, -1), (.cand 1, 4), (.cand 2, 1)] := by decide +kernel
+
+/-- **Witness (finding C02-b).**  `LargestRemainder('hare').evaluate({A:60,B:30,C:10}, 10, max_seats={A:4})`
+    returns `A:6`: `max_seats` never reaches the whole-quota stage. -/
+theorem lr_cap_witness :
+    ∃ res, largestRemainder ⟨Gen.Quota.hare, true, .error, true⟩ [(0, 60), (1, 30), (2, 10)] 10 [] [(0, 4)] = .ok res ∧
+      res = [(.cand 0, 6), (.cand 1, 3), (.cand 2, 1)] ∧
+      ¬ CapsRespected (Gen.Quota.hare 100 10) true [] [(0, 4)] [(0, 60), (1, 30), (2, 10)] res :=
+  ⟨_, by decide +kernel, rfl, by decide +kernel⟩
+
+/-- **Witness (finding C02-d).**  Without any `max_seats`, a party whose whole quotas exceed the house enters the
+    overshoot branch through the default cap `n_seats`: policy `'ignore'` does not keep the surplus
+    (`{A:90,B:10,C:10}`, 3 seats, Imperiali: whole quotas `{A:4}`, returned `{A:0,B:3,C:3}`) … -/
+theorem qd_house_witness :
+    quotaDistribute ⟨Gen.Quota.imperiali, true, .ignore, true⟩ [(0, 90), (1, 10), (2, 10)] 3 [] [] =
+        .ok [(.cand 0, 0), (.cand 1, 3), (.cand 2, 3)] ∧
+      wholeSel (Gen.Quota.imperiali 110 3) true [] [(0, 90), (1, 10), (2, 10)] = [(.cand 0, 4)] := by
+  constructor <;> decide +kernel
+
+/-- … and policy `'subtract'` dies with `ZeroDivisionError` in the recursive call (`{a:5,b:0}`, 2 seats). -/
+theorem qd_house_zero_division_witness :
+    quotaDistribute ⟨Gen.Quota.imperiali, true, .subtract, true⟩ [(0, 5), (1, 0)] 2 [] [] = .error zeroDiv ∧
+    largestRemainder ⟨Gen.Quota.imperiali, true, .subtract, true⟩ [(0, 5), (1, 0)] 2 [] [] = .error zeroDiv := by
+  constructor <;> decide +kernel
+
+/-- **Witness (finding C02-e).**  Policy `'error'` with a `quota.constant` instance (no `__name__`) raises
+    `AttributeError`, not `VotingSystemError`: `QuotaDistributor(constant(30), on_overaward='error')` on
+    `{A:60,B:40}`, 2 seats. -/
+theorem qd_policy_error_unnamed_witness :
+    quotaDistribute ⟨fun _ _ => 30, true, .error, false⟩ [(0, 60), (1, 40)] 2 [] [] = .error attrErr := by
+  decide +kernel
+
+/-! ## non-vacuity: concrete inputs meeting the hypotheses -/
+
+-- Droop, {A:47, B:16, C:37}, 10 seats: whole quotas 5,1,4 (q = 10), no remainder seat left
+example : Plain ⟨Gen.Quota.droop, true, .error, true⟩ [(0, 47), (1, 16), (2, 37)] 10 [] :=
+  ⟨by decide +kernel, by decide +kernel, by decide +kernel, by decide +kernel⟩
+-- Hare with previous gains and a cap that matters only for the remainder seat
+example : Plain ⟨Gen.Quota.hare, true, .error, true⟩ [(0, 55), (1, 35), (2, 10)] 10 [(1, 1)] :=
+  ⟨by decide +kernel, by decide +kernel, by decide +kernel, by decide +kernel⟩
+example : largestRemainder ⟨Gen.Quota.hare, true, .error, true⟩ [(0, 55), (1, 35), (2, 10)] 10 [(1, 1)] [(0, 5)] =
+    .ok [(.cand 0, 5), (.cand 1, 3), (.cand 2, 1)] := by decide +kernel
+-- a tie at the cut: three equal parties, four seats
+example : largestRemainder ⟨Gen.Quota.hare, true, .error, true⟩ [(0, 10), (1, 10), (2, 10)] 4 [] [] =
+    .ok [(.cand 0, 1), (.cand 1, 1), (.cand 2, 1), (.tie [0, 1, 2], 1)] := by decide +kernel
+-- over-award inside the house (Imperiali, {A:50,B:30,C:20}... q = 100/6): NoCapBinds holds, total 5 > 4
+example : NoCapBinds (Gen.Quota.imperiali 100 4) true 4 [] [] [(0, 50), (1, 30), (2, 20)] ∧
+    (4 : Int) < totalAwarded (Gen.Quota.imperiali 100 4) true [] [(0, 50), (1, 30), (2, 20)] := by
+  constructor <;> decide +kernel
+example : quotaDistribute ⟨Gen.Quota.imperiali, true, .subtract, true⟩ [(0, 50), (1, 30), (2, 20)] 4 [] [] =
+    .ok [(.cand 0, 2), (.cand 1, 1), (.cand 2, 1)] := by decide +kernel
+-- subtract with a tie for the smallest margin
+example : quotaDistribute ⟨Gen.Quota.imperiali, true, .subtract, true⟩ [(0, 50), (1, 50), (2, 50)] 4 [] [] =
+    .ok [(.cand 0, 1), (.cand 1, 1), (.cand 2, 1), (.tie [0, 1, 2], 1)] := by decide +kernel
+-- the accept_equal edge: a party exactly on the Hare quota
+example : wholeQ (Gen.Quota.hare 60 6) false 10 = 0 ∧ wholeQ (Gen.Quota.hare 60 6) true 10 = 1 := by
+  constructor <;> decide +kernel
+example : largestRemainder ⟨Gen.Quota.hare, false, .error, true⟩ [(0, 10), (1, 20), (2, 30)] 6 [] [] =
+    .ok [(.cand 1, 2), (.cand 2, 3), (.cand 0, 1)] := by decide +kernel
+
 end VL.C02
